@@ -14,6 +14,13 @@ _LEVEL = ('Static necessary-condition checking: each rule is exact on its struct
           'claimed are those whose truth is visible in the shape of the code.')
 
 RULEDOC = {
+ 'SA-PAIR.cwd': 'a working directory saved for a later os.chdir() back is read before the os.chdir() it undoes',
+ 'SA-DATE.width': 'every numeric piece formatted into the 17-byte volume descriptor date has a value that provably fits its width',
+ 'SA-FRESH.clamped': 'the clamped element of a returned tuple (min(x, const): the CHS cylinder count) is never multiplied back into a size',
+ 'SA-MIRROR.invariant_break': 'a for loop is not left on a condition that cannot change while it runs once work precedes the test (only the first member would be handled)',
+ 'SA-SIB.continued': 'where a builder starts a further SL / AL / NM entry inside its loop, the previous entry is marked continued on every path (not under a condition about the component boundary)',
+ 'SA-GATE.rescan': 'a scan that replaces a name when it clashes with an existing entry starts over after every replacement (break inside a repeating loop)',
+ 'SA-UNITS.bytes': 'no sector count (ceiling_div by the block size, extent numbers, log_block_* fields) reaches a byte sink of the space accounting (add_to_space_size, remove_from_space_size, num_bytes_to_add/remove)',
  'SA-PARSE.header_fits': 'a while loop over records with a fixed header of H bytes runs whenever H bytes are left (not H + 1) and reads no header byte beyond what its test guarantees',
  'SA-DATE.signext': "sign extension of a two's complement field subtracts twice the sign bit (1 << bits for a test against 1 << (bits - 1))",
  'SA-SEEK.advance': 'in the reading methods of the file object the amount added to the position is provably >= 0 under the conditions that hold there (a read past the end leaves the position alone)',
